@@ -341,7 +341,9 @@ def f_num_converged(gen, report, defs_out):
     notnan = ("(S->m_ritz_val[g_i].re == S->m_ritz_val[g_i].re && CABS(S->m_ritz_val[g_i]) == CABS(S->m_ritz_val[g_i]) && CABS(S->m_ritz_est[g_i]) == CABS(S->m_ritz_est[g_i]))"
               if gen else "(S->m_ritz_val[g_i] == S->m_ritz_val[g_i] && S->m_ritz_est[g_i] == S->m_ritz_est[g_i])")
     spec = FSpec("num_converged", "Index", [("Solver *", "S"), ("Scalar", "tol")],
-                 pre=[("Ritz arrays hold ncv entries", "VEC_SIZE(S->m_ritz_val) == S->m_ncv && VEC_SIZE(S->m_ritz_est) == S->m_ncv && VEC_SIZE(S->tag_val) == S->m_ncv && VEC_SIZE(S->tag_est) == S->m_ncv"),
+                 pre=[("the convergence test |est_i| * ||f|| < tol * max(eps^(2/3), |theta_i|) is evaluated on the Ritz values theta of the ITERATED operator, i.e. before the "
+                       "(virtual) sort_ritzpair of a shift-mode solver has back-transformed them to eigenvalues of A", "S->g_backtransformed == 0"),
+                      ("Ritz arrays hold ncv entries", "VEC_SIZE(S->m_ritz_val) == S->m_ncv && VEC_SIZE(S->m_ritz_est) == S->m_ncv && VEC_SIZE(S->tag_val) == S->m_ncv && VEC_SIZE(S->tag_est) == S->m_ncv"),
                       ("flag array has its init() size (no reallocation)", "VEC_SIZE(S->m_ritz_conv) == S->m_nev && VEC_SIZE(S->tag_conv) == S->m_nev && 1 <= S->m_nev && S->m_nev <= S->m_ncv && S->m_ncv <= NMAX")],
                  post=[("one flag per wanted Ritz value", "VEC_SIZE(S->m_ritz_conv) == S->m_nev && VEC_SIZE(S->tag_conv) == S->m_nev"),
                        ("documented criterion, element-wise: conv[i] <=> |est_i|*||f|| < tol*max(eps^(2/3), |theta_i|)",
@@ -492,10 +494,30 @@ def f_retrieve_ritzpair_herm(report):
 
 # --------------------------------------------------------------------------- sort_ritzpair (Herm base)
 
+def _vec_size_arg(a):
+    a = a.strip()
+    return "VEC_SIZE(%s)" % a if re.match(r"^S->m_ritz_(val|est)$", a) else a
+
+
+def sort_permutes_est(hdr, cls):
+    return "new_ritz_est" in X.locate(hdr, "sort_ritzpair", cls=cls).body
+
+
+def sort_loop_inv(est):
+    return SORT_LOOP_INV.replace("__CPROVER_object_whole(ntag_conv))", "__CPROVER_object_whole(ntag_conv), __CPROVER_object_whole(new_ritz_est), __CPROVER_object_whole(ntag_est))") if est else SORT_LOOP_INV
+
+
 SORT_LOCALS_RULES = [
     ("argsort", r"std::vector<Index> ind = argsort\(", "IndexArray ind = argsort(", {"max": 1}),
-    ("ind[]", r"\bind\[", "ind.data[", {"min": 3, "max": 3}),
-    ("new-val", r"(?:Real|Complex)Vector new_ritz_val\(([^;]+)\);", r"Ritz *new_ritz_val = RITZ_NEW(\1); Index *ntag_val = IVEC_NEW(\1);", {"max": 1}),
+    ("ind[]", r"\bind\[", "ind.data[", {"min": 3, "max": 4}),
+    # `RealVector new_ritz_val(m_ncv)` or a copy `RealVector new_ritz_val(m_ritz_val)`: a fresh array of that size (entries the loop does not write are arbitrary in both forms)
+    ("new-val", r"(?:Real|Complex)Vector new_ritz_val\(([^;]+)\);",
+     lambda m: "Ritz *new_ritz_val = RITZ_NEW(%s); Index *ntag_val = IVEC_NEW(%s);" % ((_vec_size_arg(m.group(1)),) * 2), {"max": 1}),
+    # the Ritz estimates permuted together with the values (optional)
+    ("new-est", r"(?:Real|Complex)Vector new_ritz_est\(([^;]+)\);",
+     lambda m: "Ritz *new_ritz_est = RITZ_NEW(%s); Index *ntag_est = IVEC_NEW(%s);" % ((_vec_size_arg(m.group(1)),) * 2), {"min": 0, "max": 1}),
+    ("est-copy", r"new_ritz_est\[(\w+)\] = S->m_ritz_est\[([^;]+)\];", r"new_ritz_est[\1] = S->m_ritz_est[\2]; ntag_est[\1] = S->tag_est[\2];", {"min": 0, "max": 1}),
+    ("swap-est", r"S->m_ritz_est\.swap\(new_ritz_est\);", "{ Ritz *t_ = S->m_ritz_est; S->m_ritz_est = new_ritz_est; new_ritz_est = t_; Index *u_ = S->tag_est; S->tag_est = ntag_est; ntag_est = u_; }", {"min": 0, "max": 1}),
     ("new-vec", r"(?:Real|Complex)Matrix new_ritz_vec\(([^;]+)\);", r"Mat new_ritz_vec = MAT_NEW(\1);", {"max": 1}),
     ("new-conv", r"BoolArray new_ritz_conv\(([^;]+)\);", r"_Bool *new_ritz_conv = BVEC_NEW(\1); Index *ntag_conv = IVEC_NEW(\1);", {"max": 1}),
     ("val-copy", r"new_ritz_val\[(\w+)\] = S->m_ritz_val\[([^;]+)\];",
@@ -524,6 +546,7 @@ SORT_RULES_HERM = ["LargestAlge", "LargestMagn", "SmallestAlge", "SmallestMagn"]
 
 def sort_spec(gen, hdr, cname="sort_ritzpair", extra_post=(), extra_frame=()):
     from props import C18
+    est = sort_permutes_est(GB if gen else HB, "GenEigsBase" if gen else "HermEigsBase")
     rules = list(C18.DOC_CPLX) if gen else SORT_RULES_HERM
     ok = "(" + " || ".join("sort_rule == SortRule_%s" % r for r in rules) + ")"
     both = "0 <= g_i && g_i < g_j && g_j < S->m_nev"
@@ -548,7 +571,7 @@ def sort_spec(gen, hdr, cname="sort_ritzpair", extra_post=(), extra_frame=()):
                  exc_post=[("rejected <=> sorting rule not supported by this solver family", "!%s && verif_exc == EXC_invalid_argument" % ok),
                            ("nothing modified when the rule is rejected", "S->cnt_conv == old_cnt && S->st_conv == old_stc && S->st_ritz == old_str")],
                  frame=["g_ia", "g_ib", "g_va", "g_vb"] + list(extra_frame),
-                 frame_inplace=["S->m_ritz_val", "S->tag_val", "S->m_ritz_conv", "S->tag_conv"],
+                 frame_inplace=["S->m_ritz_val", "S->tag_val", "S->m_ritz_conv", "S->tag_conv"] + (["S->m_ritz_est", "S->tag_est"] if est else []),
                  frame_inplace_mat=["S->m_ritz_vec"],
                  may_throw=[1],
                  olds=[("Index", "old_tv", "(0 <= g_p && g_p < S->m_nev) ? S->tag_val[g_p] : 0"), ("Index", "old_tc", "(0 <= g_p && g_p < S->m_nev) ? S->tag_conv[g_p] : 0"),
@@ -562,7 +585,7 @@ def sort_spec(gen, hdr, cname="sort_ritzpair", extra_post=(), extra_frame=()):
 def f_sort_ritzpair_herm(report):
     spec = sort_spec(False, HB)
     t = emit_solver_fn(HB, "HermEigsBase", "sort_ritzpair", "sort_ritzpair", report, ret_c="void", extra=SORT_LOCALS_RULES,
-                       loops={0: SORT_LOOP_INV}, contract=spec.frame_contract(), maythrow=["argsort"])
+                       loops={0: sort_loop_inv(sort_permutes_est(HB, "HermEigsBase"))}, contract=spec.frame_contract(), maythrow=["argsort"])
     ordf = "Index g_p;\n" + NANEQ_DEF + "#define NOTNAN(v) ((v) == (v))\n" + \
         "".join("static _Bool verif_sorted_%s(SortRule selection, Scalar va, Scalar vb) { return %s; }\n" % (r, cl)
                 for r, cl in ordered_clause("") if r in SORT_RULES_HERM)
@@ -1414,7 +1437,7 @@ def f_retrieve_ritzpair_gen(report):
 def f_sort_ritzpair_gen(report):
     spec = sort_spec(True, GB)
     rules = gen_switch_rules("S->m_ritz_val", "S->m_nev") + [r for r in SORT_LOCALS_RULES if r[0] not in ("argsort",)]
-    loop = SORT_LOOP_INV.replace("NANEQ(new_ritz_val[g_i], g_va)", "CNANEQ(new_ritz_val[g_i], g_va)").replace("NANEQ(new_ritz_val[g_j], g_vb)", "CNANEQ(new_ritz_val[g_j], g_vb)")
+    loop = sort_loop_inv(sort_permutes_est(GB, "GenEigsBase")).replace("NANEQ(new_ritz_val[g_i], g_va)", "CNANEQ(new_ritz_val[g_i], g_va)").replace("NANEQ(new_ritz_val[g_j], g_vb)", "CNANEQ(new_ritz_val[g_j], g_vb)")
     t = emit_solver_fn(GB, "GenEigsBase", "sort_ritzpair", "sort_ritzpair", report, ret_c="void", extra=rules,
                        loops={0: loop}, contract=spec.frame_contract())
     ordf = "".join("static _Bool verif_sorted_%s(SortRule selection, Complex va, Complex vb) { return %s; }\n" % (r, cl)
